@@ -187,8 +187,23 @@ class World:
         if hascmd and rng.random() < 0.4:
             kinds.append('method-over-command')
 
-            def cmd(self, a, b=4):
-                return a * b
+            # the overriding method may have other defaults than the one it overrides (the optional members of the argument are
+            # derived from the defaults), and may itself be decorated (inheriting the argument type)
+            shape = rng.choice(['same', 'same', 'all-defaults', 'no-defaults'])
+            if shape == 'same':
+                def cmd(self, a, b=4):
+                    return a * b
+            elif shape == 'all-defaults':
+                def cmd(self, a=1, b=4):
+                    return a * b
+            else:
+                def cmd(self, a, b):
+                    return a * b
+            kinds.append('cmd-defaults-' + shape)
+            if rng.random() < 0.4:
+                cmd.__doc__ = 'cmd'
+                cmd = C.Command()(cmd)
+                kinds.append('decorated-override')
             ns['cmd'] = cmd
         try:
             cls = type(f'{label}_{self.uid}', tuple(bases), ns)
